@@ -1150,6 +1150,43 @@ example : (addChops T0 2 [] [(1 / 2, { count := some 8 }, { start := some (1 / 1
       (1 / 2, {}, { count := some 4, c2c := some 2 })]).toOption.map (fun sp => (sp.map (·.count), gradingCount sp)) =
     some ([8, 4], 12) := by decide +kernel
 
+
+/-- Sections that are all uniform (every total expansion exactly 1) are still *reversed* by `Grading.inverted`: the
+    result is the list of divisions in reverse order, unchanged otherwise — so it equals the original only for a
+    palindromic grading (one section, or mirror-symmetric ratios and counts), never "because uniform cells look the
+    same from both ends". -/
+theorem T_C03_invert_uniform_sections {spec : List Division} (h : ∀ d ∈ spec, d.total = 1) :
+    inverted spec = .ok spec.reverse ∧ (inverted spec = .ok spec ↔ spec.reverse = spec) := by
+  have h0 : spec.any (fun d => decide (d.total = 0)) = false := by
+    rw [List.any_eq_false]
+    intro d hd
+    simp [h d hd]
+  have hmap : spec.reverse.map (fun d => { d with total := 1 / d.total }) = spec.reverse := by
+    conv_rhs => rw [← List.map_id spec.reverse]
+    apply List.map_congr_left
+    intro d hd
+    rw [List.mem_reverse] at hd
+    cases d with
+    | mk r n T =>
+      have : T = 1 := h _ hd
+      subst this
+      simp
+  have hinv : inverted spec = .ok spec.reverse := by
+    unfold inverted
+    rw [h0]
+    simp only [Bool.false_eq_true, if_false, pure, Except.pure]
+    rw [hmap]
+  refine ⟨hinv, ?_⟩
+  rw [hinv]
+  constructor
+  · intro hh; exact Except.ok.inj hh
+  · intro hh; rw [hh]
+
+example : inverted [⟨1 / 4, 5, 1⟩, ⟨3 / 4, 3, 1⟩] = .ok [⟨3 / 4, 3, 1⟩, ⟨1 / 4, 5, 1⟩] ∧
+    inverted [⟨1 / 4, 5, 1⟩, ⟨3 / 4, 3, 1⟩] ≠ .ok [⟨1 / 4, 5, 1⟩, ⟨3 / 4, 3, 1⟩] :=
+  ⟨(T_C03_invert_uniform_sections (by decide)).1,
+   fun hh => absurd ((T_C03_invert_uniform_sections (by decide)).2.mp hh) (by decide +kernel)⟩
+
 /-! ### 8. the bodies of the relations, translated from the source text at every run
 
 `cbv/tables/c03.py` turns (Python `ast`) the body of every `get_*` relation — validator calls, guards with their
